@@ -192,7 +192,8 @@ class LiteralEvaluator:
 			else:
 				return float(arguments[0])
 		elif org_calls == 'str':
-			return f'"{str(arguments[0])}"'
+			# 文字列リテラルは引用符付きで保持しているため、そのまま返却
+			return arguments[0] if isinstance(arguments[0], str) else f'"{str(arguments[0])}"'
 
 		raise Errors.OperationNotAllowed(node, calls, arguments)
 
